@@ -184,19 +184,19 @@ fn field_any_bytes<F: Tiny + CanonicalDeserialize, const L: usize>() {
 }
 
 crate::harnesses! { REG;
-    /// quick required unwindset=sw_double_and_add:5,>::pow:6,SqrtPrecomputation:6 | SW cofactor 4 over F_13: EVERY byte string of length 0..=2 in all 4 modes: never panics, consumes exactly the advertised size; Ok(point) <=> brute-force decoding succeeds (on curve; with validation also in the prime-order subgroup); both-flags-set, non-reduced x, x without root, off-curve and out-of-subgroup encodings are rejected
+    /// quick required unwindset=sw_double_and_add:5,>::pow:6,SqrtPrecomputation:7 | SW cofactor 4 over F_13: EVERY byte string of length 0..=2 in all 4 modes: never panics, consumes exactly the advertised size; Ok(point) <=> brute-force decoding succeeds (on curve; with validation also in the prime-order subgroup); both-flags-set, non-reduced x, x without root, off-curve and out-of-subgroup encodings are rejected
     #[unwind(70)]
     fn c10_sw_bytes_cof4() { sw_any_bytes::<SwCof4>() }
-    /// quick required unwindset=sw_double_and_add:5,>::pow:6,SqrtPrecomputation:6 | SW a=0 cofactor 1 over F_13: EVERY byte string of length 0..=2 in all 4 modes
+    /// quick required unwindset=sw_double_and_add:5,>::pow:6,SqrtPrecomputation:7 | SW a=0 cofactor 1 over F_13: EVERY byte string of length 0..=2 in all 4 modes
     #[unwind(70)]
     fn c10_sw_bytes_a0() { sw_any_bytes::<SwA0>() }
-    /// quick required unwindset=TECurveConfig>::mul_:5,>::pow:6,SqrtPrecomputation:6 | TE complete cofactor 4 over F_13: EVERY byte string of length 0..=2 in all 4 modes: no panic; accepted points decode correctly and (validated) lie in the subgroup
+    /// quick required unwindset=TECurveConfig>::mul_:5,>::pow:6,SqrtPrecomputation:7 | TE complete cofactor 4 over F_13: EVERY byte string of length 0..=2 in all 4 modes: no panic; accepted points decode correctly and (validated) lie in the subgroup
     #[unwind(70)]
     fn c10_te_bytes_complete() { te_any_bytes::<TeC>() }
-    /// quick required unwindset=TECurveConfig>::mul_:5,>::pow:6,SqrtPrecomputation:6 | TE with incomplete law (d square: the decompression denominator 1 - d y^2 ... can vanish) over F_17: EVERY byte string of length 0..=2: no panic (Err instead), accepted points decode correctly
+    /// quick required unwindset=TECurveConfig>::mul_:5,>::pow:6,SqrtPrecomputation:7 | TE with incomplete law (d square: the decompression denominator 1 - d y^2 ... can vanish) over F_17: EVERY byte string of length 0..=2: no panic (Err instead), accepted points decode correctly
     #[unwind(70)]
     fn c10_te_bytes_incomplete() { te_any_bytes::<TeInc>() }
-    /// thorough required unwindset=TECurveConfig>::mul_:5,>::pow:6,SqrtPrecomputation:6 | TE complete cofactor 8 over F_17: EVERY byte string of length 0..=2 in all 4 modes
+    /// thorough required unwindset=TECurveConfig>::mul_:5,>::pow:6,SqrtPrecomputation:7 | TE complete cofactor 8 over F_17: EVERY byte string of length 0..=2 in all 4 modes
     #[unwind(70)]
     fn c10_te_bytes_cof8() { te_any_bytes::<TeC8>() }
     /// quick required | field elements F_13, F_251 (hand-written), F_65521: EVERY byte string of length 0..=size+1: Ok(x) <=> the little-endian integer is < p (and x is that integer), never panics, consumes exactly the advertised size
